@@ -181,13 +181,27 @@ fn xorb(args: &Args, rep: &mut Report) {
                 },
             }
             let (s, a) = val(&m, &hash);
-            // accept-soundness through the reference parser (v1 footer form)
-            if s || a {
+            // accept-soundness.  The seekable validator relies on the footer: the whole object must satisfy the reference
+            // parser (v1 footer form).  The streaming validator relies on no footer (it rebuilds one from the chunks): what
+            // it accepts must be a chunk stream that decodes and hashes to the claimed hash, whatever follows it.
+            if s {
                 if let Err(e) = refs::ref_parse_xorb_v1(&m) {
                     // only padding bytes may differ; the reference is stricter on nothing else for v1 objects
                     let pad_only = m.len() == buf.len() && m.iter().zip(buf.iter()).enumerate().all(|(i, (x, y))| x == y || (i >= buf.len() - 20 && i < buf.len() - 4));
                     if !pad_only {
-                        rep.violation("C08", "val-unsound-accept-miri", &format!("mutant accepted but reference rejects: {e}"), w(&format!("mutant {mi}")));
+                        rep.violation("C08", "val-unsound-accept-miri", &format!("mutant accepted by the seekable validator but reference rejects: {e}"), w(&format!("mutant {mi}")));
+                    }
+                }
+            }
+            if a {
+                let data_end = *cas.info.chunk_boundary_offsets.last().unwrap() as usize;
+                let chunk_part_untouched = m.len() >= data_end && m[..data_end] == buf[..data_end];
+                if !chunk_part_untouched {
+                    let upto = data_end.min(m.len());
+                    let sound = matches!(refs::ref_parse_chunk_stream(&m[..upto]), Ok(r) if r.computed_hash == *hash.as_bytes())
+                        || matches!(refs::ref_parse_chunk_stream(&m), Ok(r) if r.computed_hash == *hash.as_bytes());
+                    if !sound {
+                        rep.violation("C08", "val-unsound-accept-miri", "mutant with damaged chunk data accepted by the streaming validator: its chunks do not decode to the claimed hash", w(&format!("mutant {mi}")));
                     }
                 }
             }
